@@ -3,6 +3,7 @@ import Fips204.Props.C02c
 import Fips204.Props.C03d
 import Fips204.Props.C04c
 import Fips204.Props.C09c
+import Fips204.Lemmas.OracleReal
 /-!
 # C01 (continued) — correctness of ML-DSA **as the standard writes it**
 
@@ -180,5 +181,28 @@ theorem hash_ml_dsa_sign_then_verify_as_written (O : Oracles) (hO : OracleOk O) 
     simp only [Option.map_eq_some_iff, Option.some.injEq] at hsg
     obtain ⟨s', hs', rfl⟩ := hsg
     exact fips_204_signatures_verify_as_written O hO hP p hp attempts hatt xi _ rnd pk sk s' hkg hs'
+
+/-- the same with **no hypothesis on the hash functions**: for the SHAKE the model driver executes (`Exec.realOracles`; `OracleOk` and
+    `OraclePrefix` are proved of it in `Lemmas/OracleReal`).  In particular the oracle hypotheses of all the theorems are satisfiable. -/
+theorem fips_204_signatures_verify_for_the_executed_shake (scale : Nat)
+    (p : ParamSet) (hp : p ∈ [ml_dsa_44, ml_dsa_65, ml_dsa_87]) (attempts : Nat) (hatt : attempts * p.l ≤ 65535)
+    (xi Mp rnd pk sk sigma : List Nat)
+    (hkg : Spec.keyGenInternal (specParams p) Exec.shake256 Exec.shake128 (1680 * scale) (1088 * scale) xi = some (pk, sk))
+    (hsg : (let d := Spec.skDecode (Spec.bitlen (2 * p.eta)) p.eta p.k p.l sk
+            Spec.signInternal (specParams p) Exec.shake256 Exec.shake128 (1680 * scale) (8 + 1360 * scale) attempts
+              d.1 d.2.1 d.2.2.1 d.2.2.2.1 d.2.2.2.2.1 d.2.2.2.2.2 Mp rnd) = some sigma) :
+    Spec.verifyInternal (specParams p) Exec.shake256 Exec.shake128 (1680 * scale) (8 + 1360 * scale) pk Mp sigma = some true :=
+  fips_204_signatures_verify_as_written (Exec.realOracles scale) (driverOracles_ok scale) (driverOracles_prefix scale) p hp attempts hatt
+    xi Mp rnd pk sk sigma hkg hsg
+
+/-- Algorithms 4-5 round trip with no hypothesis on the hash functions: SHAKE, SHA-256 and SHA-512 as the driver executes them -/
+theorem hash_ml_dsa_sign_then_verify_for_the_executed_hashes (scale : Nat)
+    (p : ParamSet) (hp : p ∈ [ml_dsa_44, ml_dsa_65, ml_dsa_87]) (attempts : Nat) (hatt : attempts * p.l ≤ 65535)
+    (xi M ctx rnd pk sk sigma : List Nat) (ph : Spec.PreHash)
+    (hkg : Spec.keyGenInternal (specParams p) Exec.shake256 Exec.shake128 (1680 * scale) (1088 * scale) xi = some (pk, sk))
+    (hsg : Spec.hashSign (specParams p) Exec.shake256 Exec.shake128 Exec.sha256 Exec.sha512 (1680 * scale) (8 + 1360 * scale) attempts sk M ctx ph (some rnd) = some (some sigma)) :
+    Spec.hashVerify (specParams p) Exec.shake256 Exec.shake128 Exec.sha256 Exec.sha512 (1680 * scale) (8 + 1360 * scale) pk M sigma ctx ph = some true :=
+  hash_ml_dsa_sign_then_verify_as_written (Exec.realOracles scale) (driverOracles_ok scale) (driverOracles_prefix scale) p hp attempts hatt
+    xi M ctx rnd pk sk sigma ph hkg hsg
 
 end Fips204.Props.C01
